@@ -573,6 +573,9 @@ struct Obs {
     /// rust-bitcoin's TapTree lists its leaves with the children of every branch ordered by HASH,
     /// not in DFS order, so the list is compared as a multiset (the merkle branches pin positions)
     tap_tree: Result<Option<(Vec<(Vec<u8>, usize, bool, Vec<u8>)>, [u8; 32])>, String>,
+    /// leaves reached through iterator adapters (nth / skip / step_by / last / count / len) that
+    /// disagree with plain iteration (seeded change C15-9: a specialised `nth`)
+    iter_access: Vec<String>,
 }
 const NETS: [Network; 5] = [Network::Bitcoin, Network::Testnet, Network::Testnet4, Network::Signet, Network::Regtest];
 /// the oracle's address for an output key: rust-bitcoin's own p2tr encoding of the already tweaked key
@@ -622,7 +625,62 @@ fn observe<Pk: MiniscriptKey + ToPublicKey>(d: &Descriptor<Pk>) -> Result<Obs, S
                 branch: l.control_block().merkle_branch.as_slice().iter().map(|h| h.to_byte_array()).collect(),
             })
             .collect();
+        let si_leaves: Vec<ObsLeaf> = si_leaves;
+        let mut iter_access = Vec::new();
+        {
+            let same = |l: &miniscript::descriptor::TrSpendInfoIterItem<Pk>, o: &ObsLeaf| {
+                l.script().to_bytes() == o.script && l.depth() as usize == o.depth && l.control_block().serialize() == o.cb
+            };
+            let n = si_leaves.len();
+            if si.leaves().count() != n {
+                iter_access.push(format!("leaves().count() = {} but plain iteration yields {}", si.leaves().count(), n));
+            }
+            for i in 0..n {
+                match si.leaves().nth(i) {
+                    Some(l) if same(&l, &si_leaves[i]) => {}
+                    Some(l) => iter_access.push(format!("leaves().nth({}) has control block {} (depth {}), plain iteration gives {} (depth {})", i, hex(&l.control_block().serialize()), l.depth(), hex(&si_leaves[i].cb), si_leaves[i].depth)),
+                    None => iter_access.push(format!("leaves().nth({}) = None, plain iteration has {} leaves", i, n)),
+                }
+                match si.leaves().skip(i).next() {
+                    Some(l) if same(&l, &si_leaves[i]) => {}
+                    _ => iter_access.push(format!("leaves().skip({}).next() differs from plain iteration", i)),
+                }
+                if iter_access.len() > 4 {
+                    break;
+                }
+            }
+            for step in [2usize, 3] {
+                for (j, l) in si.leaves().step_by(step).enumerate() {
+                    if j * step >= n || !same(&l, &si_leaves[j * step]) {
+                        iter_access.push(format!("leaves().step_by({}) item {} differs from plain iteration", step, j));
+                        break;
+                    }
+                }
+            }
+            match (si.leaves().last(), si_leaves.last()) {
+                (Some(l), Some(o)) if same(&l, o) => {}
+                (None, None) => {}
+                _ => iter_access.push("leaves().last() differs from plain iteration".to_string()),
+            }
+            // interleaved: next, nth(1), next ...
+            let mut it = si.leaves();
+            let mut pos = 0usize;
+            loop {
+                let (item, at) = if pos % 3 == 1 { (it.nth(1), pos + 1) } else { (it.next(), pos) };
+                match item {
+                    Some(l) => {
+                        if at >= n || !same(&l, &si_leaves[at]) {
+                            iter_access.push(format!("mixed next()/nth(1) walk differs from plain iteration at leaf {}", at));
+                            break;
+                        }
+                        pos = at + 1;
+                    }
+                    None => break,
+                }
+            }
+        }
         Obs {
+            iter_access,
             tt_leaves,
             si_leaves,
             root: si.merkle_root().map(|h| h.to_byte_array()),
@@ -676,6 +734,9 @@ fn judge(o: &Obs, e: &Exp) -> Vec<(&'static str, String)> {
     let si: Vec<(usize, i64)> = o.si_leaves.iter().map(|l| (l.depth, lab(&l.script))).collect();
     if si.len() != exp_dl.len() || si.iter().zip(&exp_dl).any(|(a, b)| a.0 != b.0 || a.1 != b.1 as i64) {
         out.push(("spend-info-leaves", format!("TrSpendInfo::leaves yields (depth,leaf) {:?}, the described tree has {:?}", short(&si), short(&exp_dl))));
+    }
+    if let Some(p) = o.iter_access.first() {
+        out.push(("spend-info-iter-adapters", format!("{} ({} disagreement(s))", p, o.iter_access.len())));
     }
     if o.root != Some(e.root) {
         out.push(("root", format!("merkle_root {} but BIP341 root of the tree is {}", o.root.map(|r| hex(&r)).unwrap_or("None".into()), hex(&e.root))));
